@@ -45,6 +45,22 @@ CLAIMED = {
          "Generated programs with a repeat-execution differential oracle.",
          "Timings and print-stats text excluded as the property states.",
          "DESIGN.md 4/C20"),
+ "C02": ("property-based testing against a nested-loop reference evaluator: random schema + skewed database + one conjunctive body of a chosen hypergraph shape (chain/star/cycle/clique/random) with decorations; Out table compared exactly under default / :no-decomp / EGraph.no_decomp / :naive / seminaive off, and with EGraph::query as a set",
+         "Generated (query, database) pairs with an independent naive evaluator as oracle, across the planner configurations reachable from the language.",
+         "Body size <= ~8 atoms, arity <= 4, tables <= 200 rows; PlanStrategy variants only reachable through the core-relations API are covered by C16's rule-set queries, not here.",
+         "DESIGN.md 4/C02"),
+ "C06": ("differential property testing across configurations in child processes: generated monotone programs and corpus files under threads {1,2,3,4,8,16} x cut-off profiles (all 0 / mixed / default) x fork depth x action batch x tasks-per-thread, each compared with the single-threaded run (Ok/Err, check outcomes, sizes, extraction costs, canonical dump)",
+         "Generated programs x configuration matrix with a differential oracle; OS schedules sampled by repetition.",
+         "Interleavings are sampled, not enumerated; children are needed because cut-offs are read once per process.",
+         "DESIGN.md 4/C06"),
+ "C07": ("property-based testing with an independent optimality oracle: generated e-graphs (cycles, zero costs, ties, costs near i64::MAX, containers, subsumed/unextractable/deleted nodes); every class extracted; membership by re-evaluation through the raw dump, legality of each node, reported cost = saturating tree cost = least fixpoint of the cost equations, failure iff no legal term, variants counted and distinct-rooted",
+         "Generated e-graphs x every root class against an independently computed least fixpoint.",
+         "Default tree-additive cost model only; one known finding (panic under saturated costs) is tolerated by signature and re-demonstrated by a regression case.",
+         "DESIGN.md 4/C07"),
+ "C17": ("bounded-exhaustive enumeration + model-based random sequences + seeded concurrent scenarios: all op sequences up to a bound for the sequential and (single-threaded) concurrent union-find against a partition model; random long sequences; multi-threaded histories with sound necessary linearizability conditions and complete Wing-Gong search for tiny histories, in child processes with a deadlock watchdog",
+         "Exhaustive for small bounds (evidence marks which stage), generated beyond; concurrency sampled.",
+         "union's returned parent under concurrency is only required to be a smaller member (a concurrent link may displace it); no schedule-perturbation hooks inside the repo code.",
+         "DESIGN.md 4/C17"),
 }
 
 PENDING_REASON = "check not built yet in this round (work in progress; see DESIGN.md section 8 for the build order)"
